@@ -56,6 +56,40 @@ def build_plain(shape: Shape) -> Dict[int, Any]:
     return nodes
 
 
+def build_dup(shape: Shape) -> Dict[int, Any]:
+    """Plain nodes whose ids repeat: a node below the root's right child carries the id of the node at the same relative
+    position below the left child (what a tree looks like after a rewrite put a subtree and its clone side by side -
+    clone() keeps ids)."""
+    nodes = build_plain(shape)
+    for i, n in nodes.items():
+        bits = bin(i)[3:]  # path from the root, first step dropped below
+        n.id = "root" if i == 1 else f"d{bits[1:] or '-'}"
+    return nodes
+
+
+def deep_shapes() -> List[Shape]:
+    """A few trees far deeper than the exhaustive bound (40+ levels): chains, zig-zags, combs, and chains whose lowest
+    node has a two-level inner subtree."""
+    out: List[Shape] = []
+    for pattern in ("L", "R", "LR", "LLR", "RRL"):
+        idx = 1
+        chain = [1]
+        for d in range(44):
+            step = pattern[d % len(pattern)]
+            idx = 2 * idx + (0 if step == "L" else 1)
+            chain.append(idx)
+        out.append(tuple(sorted(chain)))
+        comb = set(chain)
+        for i in chain[:-1]:
+            for c in (2 * i, 2 * i + 1):
+                comb.add(c)
+        out.append(tuple(sorted(comb)))
+        low = chain[-1]
+        bushy = set(chain) | {2 * low, 2 * low + 1, 4 * low, 4 * low + 1, 4 * low + 2, 4 * low + 3}
+        out.append(tuple(sorted(bushy)))
+    return out
+
+
 def build_math(shape: Shape) -> Dict[int, Any]:
     """The same shape out of expression nodes, through the public constructors."""
     nodes: Dict[int, Any] = {}
@@ -255,6 +289,37 @@ def c14_lookup(shape: Shape, flavour: str, ctx: Ctx) -> List[str]:
             want_ids = [f"n{i}" for i, _ in ref_order(shape, "inorder") if isinstance(nodes[i], cls)]
             if [x.id for x in root.find_type(cls)] != want_ids:
                 problems.append(f"find_type({cls.__name__}) is {[x.id for x in root.find_type(cls)]}, expected {want_ids}")
+        # look-ups must follow the links as they are NOW: query every id, replace one subtree by its clone through the
+        # public set_side, query every id again
+        for i in shape:
+            root.find_id(f"n{i}")
+        if n > 1:
+            r = shape[1 + ctx.choose(n - 1, "rep")]
+            below = [i for i in shape if _under(i, r)]
+            probe = below[ctx.choose(len(below), "probe")]  # an id inside the subtree that is about to be replaced
+            root.find_id(f"n{probe}")  # the LAST look-up before the change (what a one-entry memo would hold)
+            old = nodes[r]
+            par = nodes[r // 2]
+            side = LEFT if r % 2 == 0 else RIGHT
+            par.set_side(old.clone(), side)
+            live: Dict[str, Any] = {}
+
+            def walk(x: Any) -> None:
+                if x is None:
+                    return
+                walk(x.left)
+                live.setdefault(x.id, x)
+                walk(x.right)
+
+            walk(root)
+            for i in [probe] + list(shape):
+                got = root.find_id(f"n{i}")
+                if got is not live.get(f"n{i}"):
+                    problems.append(f"after replacing the subtree at n{r} by its clone, find_id(n{i}) returns a node that is not the one "
+                                    f"reachable from the root")
+                    break
+            if [x.id for x in root.to_list("inorder")] != [f"n{i}" for i, _ in ref_order(shape, "inorder")]:
+                problems.append(f"after replacing the subtree at n{r} by its clone, to_list differs from the link structure")
     return problems
 
 
@@ -290,12 +355,12 @@ def _ref_from(shape: Shape, top: int, order: str) -> List[Tuple[int, int]]:
 
 
 def c15_shape(shape: Shape, flavour: str, ctx: Ctx) -> List[str]:
-    nodes = build_plain(shape) if flavour == "plain" else build_math(shape)
+    nodes = build_plain(shape) if flavour == "plain" else (build_dup(shape) if flavour == "dup" else build_math(shape))
     root = nodes[1]
     n = len(shape)
     q = shape[ctx.choose(n, "rot")]
     node = nodes[q]
-    ids = [f"n{i}" for i in shape]
+    ids = [nodes[i].id for i in shape]
     before = inorder_ids(root)
     parent = node.parent
     grand = parent.parent if parent is not None else None
@@ -303,7 +368,10 @@ def c15_shape(shape: Shape, flavour: str, ctx: Ctx) -> List[str]:
     if grand is not None:
         grand_side = "left" if grand.left is parent else "right"
     was_left = parent is not None and parent.left is node
-    ret = node.rotate()
+    try:
+        ret = node.rotate()
+    except Exception as e:
+        return [f"rotate n{q}: raised {type(e).__name__}: {str(e)[:80]}"]
     problems: List[str] = []
     if ret is not node:
         problems.append("rotate did not return the node")
@@ -456,6 +524,12 @@ def run(prop: str, tier: str) -> int:
                                      else "every node")
     kinds = ["C14v", "C14l"] if prop == "C14" else ["C15"]
     items = [(k, s, f) for s in shapes for f in ("plain", "math") for k in kinds]
+    if prop == "C15":
+        items += [("C15", s, "dup") for s in shapes]
+        deep = deep_shapes()
+        items += [("C15", s, "plain") for s in deep]
+        rep.bounds["duplicate_ids"] = "every shape also with ids repeated between the root's two subtrees (as after a rewrite that clones a subtree)"
+        rep.bounds["deep"] = f"{len(deep)} chains / zig-zags / combs with 45 levels, every node rotated"
     random.Random(seed()).shuffle(items)
     collect(rep, pmap(worker, items, budget_s=400 if tier == "quick" else 600, chunk=8))
     return rep.finish(required_reach=["plain", "math"])
